@@ -235,6 +235,25 @@ def one_scenario(run, seed, idx, mods, mode):
     wavelength = float(r.choice([0.1, 0.3, 0.7093, 1.5406]))
     minpks = int(max(3, nper * float(r.uniform(0.25, 0.5))))
     boundary = mode == "ideal" and r.random() < 0.25
+    single_ring = False
+    if mode == "ideal" and idx % 6 == 4:
+        # all supplied g-vectors lie on ONE powder ring (a low d* cut-off): the only ring pair is that ring with itself.
+        # Use a ring with >= 8 members (non-collinear pairs exist for every grain), few grains, and ask for nearly all of a
+        # grain's peaks so that no accidental orientation can qualify.
+        dsu = np.unique(np.round(ds, 9))
+        cand = [d for d in dsu if int((np.abs(ds - d) < 1e-9).sum()) >= 8]
+        if cand:
+            d0 = cand[int(r.integers(0, min(3, len(cand))))]
+            sel = np.abs(ds - d0) < 1e-9
+            hk, ds = hk[sel], ds[sel]
+            nper = len(hk)
+            UBs = UBs[:min(len(UBs), 3)]
+            ngr = len(UBs)
+            minpks = nper - 2
+            hkl_tol = float(r.choice([0.01, 0.02]))
+            boundary = False
+            single_ring = True
+            run.count("single_ring_scenarios")
     gvs = [hk @ UB.T for UB in UBs]
     gid = np.concatenate([np.full(nper, i) for i in range(ngr)])
     gv0 = np.concatenate(gvs)
@@ -242,6 +261,9 @@ def one_scenario(run, seed, idx, mods, mode):
     ncls = "ideal"
     hmax = float(np.abs(hk).max())
     route = str(r.choice(["score_all_pairs", "index", "do_index", "index2", "do_index2"], p=[0.4, 0.15, 0.15, 0.15, 0.15]))
+    if single_ring:
+        route = str(r.choice(["score_all_pairs", "index"]))
+        ncls = "ideal-single-ring"
     rings_to_use = None
     if mode == "hiorder":
         # noise sigma 0.2-0.25 of hkl_tol in hkl units (comfortably inside the tolerance for a fitted orientation) but
@@ -428,5 +450,6 @@ def check(run, replay=None):
     run.require_counter("truth_grains_checked", 20)
     run.require_counter("boundary_minpks_scenarios", 3)
     run.require_counter("hiorder_scenarios", 8)
+    run.require_counter("single_ring_scenarios", 3)
     run.require_counter("multi_pass_runs", 3)
     run.require_counter("cell_bound_evaluated", 20)
